@@ -134,9 +134,10 @@ def lookupT : List (List Nat × Bool) → List Nat → Option Bool
   | [], _ => none
   | (k, b) :: rest, x => if k = x then some b else lookupT rest x
 
-/-- unknown nodes count as large (the shape comparison then shows a cached hash the real node lacks) -/
-def smallOf (table : List (List Nat × Bool)) (c : CNode) : Bool :=
-  (lookupT table (ser c)).getD false
+/-- the model's OWN embedding test: `len(rlp(collapsed node)) < 32` through C14's RLP encoder
+    (`MptStore.rlpSmall`), with every hash reference counted as 32 bytes.  The decisions of the real
+    hasher carried by the op line are only CHECKED against it (`checkDecisions`). -/
+def smallOf (_table : List (List Nat × Bool)) (c : CNode) : Bool := rlpSmall (pad32 c)
 
 def stackDepth : Nat := 100000
 
@@ -168,12 +169,10 @@ def subtreeAt : PNode → List Mpt.Nib → Option PNode
   | .full ch _, i :: rest => subtreeAt (ch i) rest
   | _, _ => none
 
-/-- learn the decisions deepest first: the collapsed form of a node depends on the decisions below it -/
+/-- check the embed/hash decisions the real hasher took (per path) against the model's own size test -/
 def learn (hashOf : CNode → Hash) (t : Trie) (commit : Bool) (table : List (List Nat × Bool))
     (ds : List (List Mpt.Nib × Bool)) : Option (List (List Nat × Bool)) :=
-  let maxLen := ds.foldl (fun m d => max m d.1.length) 0
-  let sorted := (List.range (maxLen + 1)).reverse.flatMap (fun l => ds.filter (fun d => d.1.length = l))
-  sorted.foldl (fun acc d =>
+  ds.foldl (fun acc d =>
     match acc with
     | none => none
     | some tb =>
@@ -181,10 +180,11 @@ def learn (hashOf : CNode → Hash) (t : Trie) (commit : Bool) (table : List (Li
       | none => none
       | some sub =>
         let hs : Hasher := ⟨smallOf tb, hashOf, t.cachegen, t.cachelimit, commit⟩
-        let c := ser (kids hs sub)
-        match lookupT tb c with
-        | some b => if b = d.2 then some tb else none
-        | none => some ((c, d.2) :: tb)) (some table)
+        if rlpSmall (pad32 (kids hs sub)) = d.2 then some tb else none) (some table)
+
+/-- values longer than 40 bytes: first 8 bytes + length -/
+def showVal (v : List Nat) : String :=
+  if v.isEmpty then "-" else if v.length > 40 then showHex (v.take 8) ++ ".." ++ toString v.length else showHex v
 
 def internId (ids : List Hash) (h : Hash) : List Hash × Nat :=
   let i := ids.idxOf h
@@ -193,7 +193,7 @@ def internId (ids : List Hash) (h : Hash) : List Hash × Nat :=
 /-- printed items: text before the hash id, optional hash, text after -/
 def items : PNode → List Mpt.Nib → List (String × Option Hash × String)
   | .empty, _ => []
-  | .value v, path => [("/" ++ showPath path ++ ":v" ++ (if v.isEmpty then "-" else showHex v), none, "")]
+  | .value v, path => [("/" ++ showPath path ++ ":v" ++ showVal v, none, "")]
   | .hash h, path => [("/" ++ showPath path ++ ":", some h, "")]
   | .short K c f, path =>
     ("/" ++ showPath path ++ ":s" ++ showPath K ++ "[" ++ (if f.dirty then "d" else "c") ++ toString f.gen, f.hash, "]")
@@ -219,6 +219,40 @@ def shape (ids : List Hash) (t : Trie) : List Hash × String :=
 
 def parseId? (s : String) : Option Nat :=
   if s.startsWith "#" then (s.drop 1).toNat? else none
+
+def showProof : ProofRes → String
+  | .value v n => s!"v={showVal v} n={n}"
+  | .absent n => s!"nil n={n}"
+  | .missing i => s!"err missing {i}"
+  | .mismatch i => s!"err mismatch {i}"
+  | .bad i => s!"err bad {i}"
+  | .panic => "panic"
+  | .diverge => "diverge"
+
+/-- the hash under which the blob that holds the value for `key` is read, and the key left there -/
+def lastBlob (r : Store) : Nat → Hash → List Mpt.Nib → Option (Hash × List Mpt.Nib)
+  | 0, _, _ => none
+  | fuel + 1, want, key =>
+    match r want with
+    | none => none
+    | some c =>
+      match proofGet c key with
+      | .value _ => some (want, key)
+      | .hash h rest => lastBlob r fuel h rest
+      | _ => none
+
+/-- flip the lowest bit of the last byte of the value `get` reaches for `key` -/
+def alterAt : CNode → List Mpt.Nib → CNode
+  | .short K c, key =>
+    match Mpt.stripPrefix K key with
+    | none => .short K c
+    | some rest => .short K (alterAt c rest)
+  | .full ch, k :: rest => .full (fun i => if i = k then alterAt (ch i) rest else ch i)
+  | .value v, _ =>
+    match v.reverse with
+    | b :: r => .value ((Nat.xor b 1 :: r).reverse)
+    | [] => .value v
+  | c, _ => c
 
 def failStr {α : Type} : Res α → String
   | .ok _ => "ok"
@@ -256,7 +290,7 @@ def step (s : SSt) (w : List String) : SSt × String :=
       match s.trie.get s.db.node stackDepth (Mpt.hexKey k) with
       | .ok (v, t) =>
         let (ids, sh) := shape s.ids t
-        ({ s with trie := t, ids := ids }, (match v with | some v => showHex v | none => "nil") ++ " " ++ sh)
+        ({ s with trie := t, ids := ids }, (match v with | some v => showVal v | none => "nil") ++ " " ++ sh)
       | r => (s, failStr r)
     | none => (s, "bad-op")
   | ["scommit", ds] =>
@@ -264,7 +298,7 @@ def step (s : SSt) (w : List String) : SSt × String :=
     | none => (s, "bad-op")
     | some ds =>
       match learn ser s.trie true s.table ds with
-      | none => (s, "small-oracle-inconsistent")
+      | none => (s, "small-threshold-mismatch")
       | some tb =>
         match s.trie.commit (smallOf tb) ser with
         | .ok (h, t, ws) =>
@@ -278,7 +312,7 @@ def step (s : SSt) (w : List String) : SSt × String :=
     | none => (s, "bad-op")
     | some ds =>
       match learn ser s.trie false s.table ds with
-      | none => (s, "small-oracle-inconsistent")
+      | none => (s, "small-threshold-mismatch")
       | some tb =>
         match s.trie.hash (smallOf tb) ser with
         | .ok (h, t) =>
@@ -286,6 +320,39 @@ def step (s : SSt) (w : List String) : SSt × String :=
           let (ids, sh) := shape ids1 t
           ({ s with trie := t, table := tb, ids := ids }, s!"root=#{i} {sh}")
         | r => (s, failStr r)
+  | ["sgen", g] =>
+    match g.toNat? with
+    | some g => ({ s with trie := { s.trie with cachegen := g } }, "ok")
+    | none => (s, "bad-op")
+  | ["srestart", id] =>
+    match (parseId? id).bind (fun i => s.ids[i]?) with
+    | none => (s, "bad-op")
+    | some h =>
+      -- flush of the root (when its pool is the current one) is part of the op; then the pool is gone
+      let flushed := match s.db.commit h with
+        | .ok db => db
+        | _ => s.db
+      let db := flushed.fresh
+      match Trie.new ser db.node h with
+      | .ok t =>
+        let t := { t with cachelimit := s.trie.cachelimit }
+        let (ids, sh) := shape s.ids t
+        ({ s with trie := t, db := db, ids := ids }, "ok " ++ sh)
+      | r => ({ s with db := db }, failStr r)
+  | ["sverify", id, k] =>
+    match (parseId? id).bind (fun i => s.ids[i]?), parseHex? k with
+    | some h, some k => (s, showProof (verifyProof true ser s.db.fresh.node stackDepth h (Mpt.hexKey k) 0))
+    | _, _ => (s, "bad-op")
+  | ["sverifyf", id, k] =>
+    match (parseId? id).bind (fun i => s.ids[i]?), parseHex? k with
+    | some h, some k =>
+      let disk := s.db.fresh.node
+      match lastBlob disk stackDepth h (Mpt.hexKey k) with
+      | some (at_, rest) =>
+        let r : Store := fun x => if x = at_ then (disk x).map (fun c => alterAt c rest) else disk x
+        (s, showProof (verifyProof true ser r stackDepth h (Mpt.hexKey k) 0))
+      | none => (s, "no-value")
+    | _, _ => (s, "bad-op")
   | ["sflush", id] =>
     match (parseId? id).bind (fun i => s.ids[i]?) with
     | none => (s, "bad-op")
